@@ -190,7 +190,7 @@ def flood_ok(ctx, nsw, phys, flood):
   return msgs
 
 
-def h_forest(ctx, nsw, par, toggle, order='asc'):
+def h_forest(ctx, nsw, par, toggle, order='asc', reboot=False):
   core = env.get_core()
   ST = ctx.pox('pox.openflow.spanning_tree'); D = ctx.pox('pox.openflow.discovery'); of = ctx.pox('pox.openflow.libopenflow_01')
   dpids = list(range(1, nsw + 1))
@@ -242,7 +242,7 @@ def h_forest(ctx, nsw, par, toggle, order='asc'):
       for m in cons[a].sent:
         if isinstance(m, of.ofp_port_mod): flood[(a, m.port_no)] = (m.config & of.OFPPC_NO_FLOOD) == 0
     return flood
-  def check(tag, m):
+  def check(tag, m, absent=None):
     flood = state()
     bidir = [(a, pa, b, pb) for idx, (a, pa, b, pb) in enumerate(cables) if present(m, 2 * idx) and present(m, 2 * idx + 1)]
     # components of the bidirectional graph
@@ -261,12 +261,35 @@ def h_forest(ctx, nsw, par, toggle, order='asc'):
         _, origin, reached = r
         want = {s for s in range(nsw) if find(s) == find(origin)}
         ctx.check(tag + 'flood from %d spans its component' % origin, want <= reached)
-    for a in range(nsw): ctx.check(tag + 'host-facing port keeps flooding', flood[(a, 99)])
+    for a in range(nsw):
+      if a != absent: ctx.check(tag + 'host-facing port keeps flooding', flood[(a, 99)])
     for idx, (a, pa, b, pb) in enumerate(cables):
       if not present(m, 2 * idx) and not present(m, 2 * idx + 1):
-        ctx.check(tag + 'undiscovered port counts as edge port and floods', flood[(a, pa)] and flood[(b, pb)])
+        # (a switch without a control connection cannot be configured: its own ports are not judged)
+        ctx.check(tag + 'undiscovered port counts as edge port and floods', (flood[(a, pa)] or a == absent) and (flood[(b, pb)] or b == absent))
   fill(mask)
   check('', mask)
+  if reboot:
+    # one switch loses its control connection while the others go on (its links are withdrawn), the tree adapts; the switch then comes back
+    # *rebooted* - a new connection, every port flooding again, as a switch with factory settings does - and its links are rediscovered
+    # one by one (ascending or descending order): the forest property must hold again, whatever the component remembered about the old incarnation
+    r = int(ctx.int('reboot', 0, nsw - 1))
+    class Down: dpid = dpids[r]
+    old = nexus._connections.pop(dpids[r])
+    disc._handle_openflow_ConnectionDown(Down)
+    lost = 0
+    for idx in range(ndir):
+      a, pa, b, pb = cables[idx // 2]
+      if r in (a, b): lost |= (1 << idx)
+    cur[0] = mask & ~lost
+    check('while switch %d is disconnected: ' % r, cur[0], absent=r)
+    c = Con(dpids[r], [(no, p.hw_addr) for no, p in old.ports.items()]); c.connect_time = clock.now
+    nexus._connections[dpids[r]] = c; cons[r] = c
+    class Up: dpid = dpids[r]; connection = c
+    ST._handle_ConnectionUp(Up)
+    fill(mask)
+    check('after switch %d rebooted and its links were rediscovered: ' % r, mask)
+    ctx.witness('rebooted')
   if toggle:
     t = int(ctx.int('toggle', 0, ndir - 1))
     m2 = mask ^ (1 << t)
@@ -281,6 +304,7 @@ def obligations(tier):
   forest = [dict(nsw=2, par=1, toggle=True), dict(nsw=2, par=2, toggle=True), dict(nsw=2, par=2, toggle=True, order='desc'), dict(nsw=3, par=1, toggle=False),
             dict(nsw=3, par=1, toggle=True), dict(nsw=3, par=1, toggle=True, order='desc')]
   forest += [dict(nsw=3, par=2, toggle=False), dict(nsw=4, par=1, toggle=False)]
+  forest += [dict(nsw=3, par=1, toggle=False, reboot=True), dict(nsw=3, par=1, toggle=False, reboot=True, order='desc'), dict(nsw=2, par=2, toggle=False, reboot=True)]
   if thorough: forest += [dict(nsw=4, par=1, toggle=True), dict(nsw=3, par=2, toggle=True)]
   BOUNDS[tier] = dict(probe="dpid: every hex-digit length 1..16 x all values; ports 1..0xff00; receiving (dpid, port) symbolic",
                       adjacency="0..2 prior probes among 5 directed links over 3 switches with symbolic dpids and time gaps; then probe / expiry at a symbolic instant / "
